@@ -225,6 +225,46 @@ func L2Features() []MethodCase {
 		m.HTTP.Responses = []Resp{{Status: 200, Headers: []Map{{"rh", "X-Rh"}}, Body: "attr:ra"}}
 		out = append(out, MethodCase{M: m})
 	}
+	// an API-level base path (with and without a service base path) x route orders: an absolute
+	// route ignores both
+	for _, svcBase := range []string{"", "/sb"} {
+		for _, shape := range []string{"rel", "abs", "rel+abs", "abs+rel"} {
+			m := mk("api-path-" + map[bool]string{true: "svc-", false: ""}[svcBase != ""] + shape)
+			m.Payload = ObjT([]string{"id"}, A("id", P(KString)), A("qq", P(KInt)))
+			m.HTTP.Verb = "GET"
+			m.HTTP.Params = []Map{{"qq", "q"}}
+			var routes []string
+			for i, k := range strings.Split(shape, "+") {
+				p := fmt.Sprintf("/%s/r%d/{id}", m.Name, i)
+				if k == "abs" {
+					p = "/" + p
+				}
+				routes = append(routes, p)
+			}
+			m.HTTP.Path = routes[0]
+			for _, r := range routes[1:] {
+				m.HTTP.Routes = append(m.HTTP.Routes, "GET "+r)
+			}
+			out = append(out, MethodCase{M: m, Own: true, APIPath: "/api", SvcPath: svcBase})
+		}
+	}
+	// two methods of one service share one named payload type and send different, identically
+	// typed attributes of it as their body (the other one travels in the query string)
+	for _, elem := range []string{"string", "int"} {
+		et := P(KString)
+		if elem == "int" {
+			et = P(KInt)
+		}
+		shared := &TypeDef{Name: "BShared" + strings.Title(elem), Kind: "type", Attrs: []*Attr{A("xa", ArrT(et)), A("xb", ArrT(cloneType(et)))}}
+		for _, at := range []string{"xa", "xb"} {
+			other := map[string]string{"xa": "xb", "xb": "xa"}[at]
+			m := mk("shared-payload-body-" + elem + "-" + at)
+			m.Payload = User(shared.Name)
+			m.HTTP.Params = []Map{{other, "o"}}
+			m.HTTP.Body = "attr:" + at
+			out = append(out, MethodCase{M: m, Types: []*TypeDef{shared}, SameService: "shared-payload-body-" + elem})
+		}
+	}
 	{
 		m := mk("body-attrs")
 		m.Payload = ObjT(nil, A("ba", P(KString)), A("bb", P(KInt)), A("hh", P(KString)))
